@@ -961,8 +961,19 @@ def syntax_dispatch(ctx, rule: str, general: str, flattened: str, member: str, m
         cfg = cfg_of(fn)
         tests = []
         for t in cfg.nodes:
-            if t.kind == "test" and isinstance(t.ast, ast.Compare) and len(t.ast.ops) == 1 and isinstance(t.ast.ops[0], (ast.In, ast.NotIn)) and const_value(t.ast.left) == member:
-                tests.append((t, "true" if isinstance(t.ast.ops[0], ast.In) else "false"))
+            if t.kind != "test" or t.ast is None:
+                continue
+            e, neg = t.ast, False
+            while isinstance(e, ast.UnaryOp) and isinstance(e.op, ast.Not):
+                e, neg = e.operand, not neg
+            if isinstance(e, ast.Name) and e.id not in fn.params:
+                # a local flag bound once to the membership test (`general = "signatures" in value`)
+                defs = [d_ for d_ in eng.flow._defs(fn).get(e.id, []) if d_[0] == "assign"]
+                if len(defs) == 1 and len(eng.flow._defs(fn).get(e.id, [])) == 1 and isinstance(defs[0][1], ast.Compare):
+                    e = defs[0][1]
+            if isinstance(e, ast.Compare) and len(e.ops) == 1 and isinstance(e.ops[0], (ast.In, ast.NotIn)) and const_value(e.left) == member:
+                present_on_true = isinstance(e.ops[0], ast.In) != neg
+                tests.append((t, "true" if present_on_true else "false"))
         ok = bool(tests)
         why = "no test of the array member decides between the two readers"
         if ok:
